@@ -333,3 +333,51 @@ def coq_stage(rep, extra_targets=()):
 def load_known():
     with open(os.path.join(VERIF, "known_findings.json")) as f:
         return json.load(f)
+
+
+# ---------------------------------------------------------------- Layer 0 kernel checks
+
+def kernel_pair(lines, shards=8):
+    impl = run_lines(harness_bin("kernels"), lines, shards=shards)
+    model = run_lines(os.path.join(OCAML, "driver"), lines, shards=shards)
+    if len(impl) < len(lines):
+        impl += ["<missing>"] * (len(lines) - len(impl))
+    if len(model) < len(lines):
+        model += ["<missing>"] * (len(lines) - len(model))
+    return impl, model
+
+
+def prepare(rep, bins=("kernels",)):
+    """Coq stage + harness + model builds. Returns (proofs_ok, ready)."""
+    proofs_ok = coq_stage(rep)
+    rc, out = build_harness(list(bins))
+    if rc != 0:
+        rep.violation("harness-build", dict(what="harness does not build against /repo (hooks feature %s)" % HOOK_FEATURE, log=out[-3000:]), False)
+        return proofs_ok, False
+    rc, out = build_model()
+    if rc != 0:
+        rep.violation("model-build", dict(what="model extraction/driver build failed", log=out[-3000:]), False)
+        return proofs_ok, False
+    return proofs_ok, True
+
+
+def read_corpus(prop):
+    d = os.path.join(VERIF, "corpus", prop)
+    lines = []
+    if os.path.isdir(d):
+        for fn in sorted(os.listdir(d)):
+            if fn.endswith(".txt"):
+                lines += [l.strip() for l in open(os.path.join(d, fn)) if l.strip() and not l.startswith("#")]
+    return lines
+
+
+def conclude(rep, proofs_ok, oracle_fail, diverged, model_name, replay_hint="echo '<request>' | .cache/target/debug/kernels"):
+    rep.cov["disagreements_checked"] = len(diverged)
+    if oracle_fail:
+        rep.violation("oracle", dict(what="implementation violates %s on a concrete input" % rep.prop, cases=oracle_fail[:20], replay_cmd=replay_hint), True)
+    elif diverged:
+        rep.violation("correspondence", dict(what="model %s and the implementation disagree; the theorems of Properties/%s.v no longer describe the code" % (model_name, rep.prop),
+                                             correspondence=model_name, first=diverged[:20], replay_cmd=replay_hint), False)
+    elif not proofs_ok:
+        rep.violation("proof", dict(what="Coq obligation no longer checks", failure=rep.coq_failure), False)
+    return rep.finish()
